@@ -263,6 +263,12 @@ impl SequencerBlockError {
         Self(SequencerBlockErrorKind::RollupTransactionsNotInSequencerBlock)
     }
 
+    fn rollup_transaction_for_id_not_in_sequencer_block(id: RollupId) -> Self {
+        Self(SequencerBlockErrorKind::RollupTransactionForIdNotInSequencerBlock {
+            id,
+        })
+    }
+
     fn rollup_transactions_root_does_not_match_reconstructed() -> Self {
         Self(SequencerBlockErrorKind::RollupTransactionsRootDoesNotMatchReconstructed)
     }
@@ -334,6 +340,11 @@ enum SequencerBlockErrorKind {
          sequencer block could not be verified against their proof and the block's data hash"
     )]
     RollupTransactionsNotInSequencerBlock,
+    #[error(
+        "the rollup transactions for rollup `{id}` could not be verified against their proof and \
+         the block's rollup transactions root"
+    )]
+    RollupTransactionForIdNotInSequencerBlock { id: RollupId },
     #[error(
         "the root derived from the rollup transactions in the cometbft `block.data` field did not \
          match the root stored in the same block.data field"
@@ -1095,6 +1106,18 @@ impl SequencerBlock {
 
         if !are_rollup_txs_included(&rollup_transactions, &rollup_transactions_proof, data_hash) {
             return Err(SequencerBlockError::rollup_transactions_not_in_sequencer_block());
+        }
+        for rollup_transactions in rollup_transactions.values() {
+            if !super::do_rollup_transactions_match_root(
+                rollup_transactions,
+                header.rollup_transactions_root,
+            ) {
+                return Err(
+                    SequencerBlockError::rollup_transaction_for_id_not_in_sequencer_block(
+                        *rollup_transactions.rollup_id(),
+                    ),
+                );
+            }
         }
         if !are_rollup_ids_included(rollup_transactions.keys(), &rollup_ids_proof, data_hash) {
             return Err(SequencerBlockError::invalid_rollup_ids_proof());
